@@ -352,6 +352,83 @@ def check_arrival_laws(rep, crate):
     return n
 
 
+def _singleton(t, field_path, x):
+    """rewrite a term over a collection-valued place that holds the one-element literal [x]: its length is 1, its elements
+    are x, a count / search over it is decided by the predicate at x"""
+    V = field_path
+
+    def is_elems(u):
+        return u == V or u == ('elems', V)
+
+    def walk(u):
+        if not isinstance(u, tuple) or not u:
+            return u
+        if T.is_lin(u):
+            acc = T.const(u[1])
+            for r, c in u[2]:
+                acc = T.add(acc, T.scale(T.as_lin(walk(r)), c))
+            return acc
+        if u[0] == 'len' and len(u) == 2 and is_elems(u[1]):
+            return T.const(1)
+        if u[0] == 'idx' and len(u) == 3 and is_elems(u[1]):
+            return x                                  # every valid index of a one-element vector is 0
+        if u[0] == 'count' and len(u) == 2 and isinstance(u[1], tuple) and u[1] and u[1][0] in ('take_while', 'filter') \
+                and is_elems(T.unroot(u[1][1])) and u[1][2][0] == 'lam':
+            lam = u[1][2]
+            return T.ind(walk(T.substitute(lam[2], {T.bv(lam[1]): x})))
+        if u[0] == 'case' and len(u) == 4 and u[2] == 'Some' and isinstance(u[1], tuple) and u[1] and u[1][0] == 'first' \
+                and isinstance(u[1][1], tuple) and u[1][1][0] == 'enumerate' and is_elems(T.unroot(u[1][1][1])):
+            return T.tup(T.const(0), x)               # the hit of a successful search over [(0, x)]
+        new = tuple(walk(y) for y in u)
+        return T.renorm(new)
+    return walk(t)
+
+
+def check_conversion_laws(rep, crate):
+    """C12 for the periodic conversion: Curve::from(Periodic { period }) answers number_arrivals exactly like the periodic
+    model itself, for every interval length and period -- proved from the code of Curve::number_arrivals specialised to the
+    one-element delta-min vector that the conversion builds, against the code of Periodic::number_arrivals"""
+    conv = '<arrival::curve::Curve as std::convert::From<arrival::periodic::Periodic>>::from'
+    cna = '<arrival::curve::Curve as arrival::ArrivalBound>::number_arrivals'
+    pna = ARRIVALS['Periodic']['n']
+    n = 0
+    try:
+        b = crate.body(conv)
+        if b is None:
+            raise AnchorMissing(f'{conv}: conversion not found')
+        ev = Evaluator(crate)
+        top = T.unroot(ev.eval_entry(b))
+        structs = [y for y in T.subterms(top) if isinstance(y, tuple) and len(y) == 3 and y[0] == 'struct' and y[1] == 'arrival::curve::Curve']
+        lits = [y for st in structs for y in T.subterms(dict(st[2]).get('min_distance')) if isinstance(y, tuple) and len(y) == 2 and y[0] == 'arr'] if structs else []
+        where = loc(b.raw)
+        if len(structs) != 1 or len(lits) != 1 or len(lits[0][1]) != 1:
+            # e.g. the conversion delegates to a constructor: follow one level
+            raise AnchorMissing(f'{conv}: does not build the curve from a one-element literal: {T.show(top)[:160]}')
+        x = T.as_lin(lits[0][1][0])
+        per = T.root(T.fld(P0, ARRIVALS['Periodic']['period']))
+        if x != per:
+            rep.bad('CONV', 'CONV:Periodic:literal', where, f'the conversion stores {T.show(x)} as the distance of two jobs', T.show(per), fn=conv,
+                    why='the minimum distance of two jobs of a periodic source is its period')
+            return 1
+        pcv, cb = fn_cases(crate, cna)
+        V = ('f', ('p', 0), 'min_distance')
+        pcv = [(tuple(_singleton(c, V, x) for c in pc), _singleton(v, V, x)) for pc, v in pcv]
+        cur = LA.cases_of(pcv)
+        ref, pb = lin_cases(crate, pna)
+        if cur is None:
+            raise AnchorMissing(f'{cna}: not piecewise linear over a one-element delta-min vector')
+        # the search that ends Curve::number_arrivals succeeds (vetted: the tail is below the largest distance); period >= 1
+        wf = [T.sub(T.const(1), per)]
+        _judge(rep, 'CONV', 'CONV:Periodic:number_arrivals', loc(cb.raw), cna, LA.equal_under(cur, ref, wf),
+               'Curve::from(Periodic { period }).number_arrivals(delta) = Periodic { period }.number_arrivals(delta) for all delta and period >= 1',
+               'the derived curve coincides with its periodic source everywhere (never smaller, never larger)',
+               'C12: a derived curve that is smaller than its source undercounts (unsafe); a larger one loses exactness')
+        n += 1
+    except AnchorMissing as ex:
+        rep.bad('ANCHOR', 'ANCHOR:CONV:Periodic', conv, ex.what, fn=conv, why='fail closed')
+    return n
+
+
 def _generators(t):
     """steps term -> list of (lo, pred or None, f, d) generators `map(filter(range(lo, inf), λd. pred), λd. f)` and a list of
     constants yielded first (once(k)); None if the shape is different"""
